@@ -263,8 +263,13 @@ class Gen:
                 if self.rng.random() < 0.9:
                     self.w.do('set_status', ref='tip:' + b,
                               state=self.status_value())
+            qs = [b for b in sorted(heads) if b.startswith('q/') and
+                  not b.startswith('q/w/')]
             if qw:
-                self.run('commit', 'tip:' + self.rng.choice(qw))
+                # a report on the newest queue commit (a q/<version> tip)
+                # wakes the queue up; one on an older q/w commit does not
+                self.run('commit', 'tip:' + self.rng.choice(
+                    qs if qs and self.rng.random() < 0.7 else qw))
             return False
         if st in ('Conflict', 'BranchHistoryMismatch', 'QueueConflict'):
             if self.rng.random() < 0.5:
@@ -438,6 +443,59 @@ class Gen:
                 kw['branch_from'] = 'tip:' + self.rng.choice(self.dests())
             self.run('create_branch', name, **kw)
 
+    def queue_pr(self, pr):
+        """cooperative: green source / w tips until the PR is queued"""
+        for _ in range(3):
+            rec = self.run('pr', pr['id'])
+            if rec['status'] in ('Queued', 'SuccessMessage', 'Merged'):
+                return rec['status']
+            for t in self.interesting_tips(pr):
+                if t.endswith(pr['src']) and not t.startswith('tip:q/'):
+                    self.w.do('set_status', ref=t, state='SUCCESSFUL')
+        return None
+
+    def op_stab_paths(self):
+        """merge-path corner: PRs queued on a stabilization branch that sits
+        above the oldest queued version and on the oldest development branch,
+        queue builds non-green on one path only"""
+        dests = [d for d in self.dests() if not d.startswith('hotfix/')]
+        stabs = [d for d in dests if d.startswith('stabilization/')]
+        devs = [d for d in dests if d.startswith('development/')]
+        if not stabs or len(devs) < 2:
+            return self.op_three_queued()
+        stab = stabs[-1]
+        order = self.rng.choice([[stab, devs[0], stab],
+                                 [devs[0], stab, stabs[0]],
+                                 [stab, devs[0], devs[0]],
+                                 [devs[0], stab, devs[-1]]])
+        prs = [self.new_pr(d, evaluate=False) for d in order]
+        for pr in prs:
+            self.queue_pr(pr)
+        heads = self.w.refs()[0]
+        qw = [b for b in sorted(heads) if b.startswith('q/w/')]
+        # every queue commit green except the commits of two of the PRs on
+        # their own destination version (70 %), or a random assignment
+        own = []
+        for pr in prs:
+            ver = oracle.version_of(pr['dst'])
+            own += [b for b in qw if b.startswith('q/w/%d/%s/' % (pr['id'],
+                                                                   ver))]
+        red = set(self.rng.sample(own, min(2, len(own)))) \
+            if self.rng.random() < 0.7 else None
+        for b in qw:
+            if red is not None:
+                st = self.rng.choice(STATES[1:]) if b in red \
+                    else 'SUCCESSFUL'
+            else:
+                st = 'SUCCESSFUL' if self.rng.random() < 0.6 else \
+                    self.rng.choice(STATES[1:])
+            self.w.do('set_status', ref='tip:' + b, state=st)
+        qs = [b for b in sorted(heads) if b.startswith('q/') and
+              not b.startswith('q/w/')]
+        if qs:
+            self.run('commit', 'tip:' + self.rng.choice(qs))
+            self.run('commit', 'tip:' + self.rng.choice(qs + qw))
+
 
 OPENERS = {
     'two_prs_same_base': Gen.op_two_prs_same_base,
@@ -445,6 +503,7 @@ OPENERS = {
     'three_queued': Gen.op_three_queued,
     'dest_moves_while_open': Gen.op_dest_moves_while_open,
     'backport': Gen.op_backport,
+    'stab_paths': Gen.op_stab_paths,
     'admin_branches': Gen.op_admin_branches,
     'partial_merge': Gen.op_partial_merge,
     'dependency_then_other': Gen.op_dependency_then_other,
